@@ -10,6 +10,14 @@ import json, os, sys
 
 HERE = os.path.dirname(os.path.dirname(os.path.abspath(__file__)))
 ANGLES = {
+    "8": ("This time start from the HISTORY of the library: run `git -C <your worktree> log --oneline | head -150` and read the commits whose message "
+          "starts with 'fix:' that touch the code this property is about (`git show <commit>`). Each of them repaired a defect for a FAMILY of "
+          "inputs. Craft changes that look like later maintenance of that repaired code (a simplification, a merge of two branches, a 'faster' "
+          "rewrite, a refactor into a helper, a tidy-up of a regex or a table) and that PARTIALLY undo one such repair: the input named in the "
+          "commit message and its obvious siblings must still behave correctly, but a less obvious member of the same family — another "
+          "position, another option value, another spelling, another of the functions that share the repaired helper — breaks again. Do not "
+          "simply revert a commit. A and B must undo parts of DIFFERENT fix commits. The change must remain a plausible maintenance edit, keep "
+          "the 96 tests green, and break the property AS STATED for an input inside the quantified domain."),
     "7": ("This time make the trigger as NARROW as you can while it stays a plausible input inside the quantified domain: the breakage should "
           "need at least TWO or THREE specific conditions to coincide — e.g. a particular option value AND a particular character class AND a "
           "particular position (first / last / only element); a particular host shape AND a particular path shape; a value that is equal to a "
@@ -58,7 +66,7 @@ def main():
         o = os.path.join(out, pid)
         os.makedirs(o, exist_ok=True)
         text = TEMPLATE.format(w=w, o=o, pid=pid, title=p["title"], statement=p["statement"], quant=p["quantifier"]["text"],
-                               angle=ANGLES[rnd], earlier="\n".join(earlier.get(pid, [])), nth={"5": "FIFTH", "6": "SIXTH", "7": "SEVENTH"}[rnd])
+                               angle=ANGLES[rnd], earlier="\n".join(earlier.get(pid, [])), nth={"5": "FIFTH", "6": "SIXTH", "7": "SEVENTH", "8": "EIGHTH"}[rnd])
         open(os.path.join(o, "prompt.txt"), "w").write(text)
     print(len(props), "prompts in", out)
 
